@@ -38,16 +38,18 @@ def isSimple : PStmt → Bool
   | .while_ _ _ => false
   | .tryCatch _ _ _ => false
   | .break_ => false
+  | .tryFinally _ _ => false
   | _ => true
 
 mutual
-/-- no `while_`, `tryCatch`, `break_` anywhere -/
+/-- no `while_`, `tryCatch`, `break_`, `tryFinally` anywhere -/
 def loopFreeS : PStmt → Bool
   | .ite _ t e => loopFreeB t && loopFreeB e
   | .tryExcept b h => loopFreeB b && loopFreeB h
   | .while_ _ _ => false
   | .tryCatch _ _ _ => false
   | .break_ => false
+  | .tryFinally _ _ => false
   | _ => true
 def loopFreeB : PBlock → Bool
   | .nil => true
@@ -237,6 +239,7 @@ theorem exec2S_eq_execStmt (M : Meths) : ∀ (s : PStmt) (n : Nat) (env : Env),
   | .while_ _ _, _, _, hl, _, _ => by simp [loopFreeS] at hl
   | .tryCatch _ _ _, _, _, hl, _, _ => by simp [loopFreeS] at hl
   | .break_, _, _, hl, _, _ => by simp [loopFreeS] at hl
+  | .tryFinally _ _, _, _, hl, _, _ => by simp [loopFreeS] at hl
   | .ite c t e, n, env, hl, hs, hd => by
     simp only [loopFreeS, Bool.and_eq_true] at hl
     simp only [dumperShapeS, Bool.and_eq_true] at hs
@@ -503,6 +506,27 @@ theorem exec2_mono (M : Meths) : ∀ n : Nat,
                 | ret v env1 => exact h
                 | brk env1 => exact h
       | break_ => exact h
+      | tryFinally body fin =>
+        have e1 : ∀ k, exec2S (k + 1) M env (.tryFinally body fin) =
+            (match exec2B k M env body with
+             | .error e => .error e
+             | .ok o =>
+               match exec2B k M o.env fin with
+               | .ok (.next env2) => .ok (o.setEnv env2)
+               | r => r) := fun _ => rfl
+        rw [e1] at h ⊢
+        cases hb : exec2B n M env body with
+        | error er => rw [hb] at h; cases h
+        | ok o1 =>
+          rw [hb] at h
+          rw [ihB _ _ _ hb]
+          simp only at h ⊢
+          cases hf : exec2B n M o1.env fin with
+          | error er => rw [hf] at h; cases h
+          | ok o2 =>
+            rw [hf] at h
+            rw [ihB _ _ _ hf]
+            exact h
       | assign t e => exact h
       | ret e => exact h
       | retNone => exact h
